@@ -198,7 +198,15 @@ def execute(case, prefix):
         holder['c'] = c
         # opcode granularity in every function that touches the shared containers or the locks guarding them - whatever they are called
         import collections
-        shared = {k for k, v in vars(c).items() if isinstance(v, (list, dict, set, collections.deque, S.VLock, S.VRLock, S.VCondition, S.VSemaphore))}
+        shared = set()
+
+        def scan(obj, depth):
+            for k, v in vars(obj).items():
+                if isinstance(v, (list, dict, set, collections.deque, S.VLock, S.VRLock, S.VCondition, S.VSemaphore)):
+                    shared.add(k)
+                elif depth < 3 and type(v).__module__ == A.__name__ and hasattr(v, '__dict__'):
+                    scan(v, depth + 1)   # a private helper object of the module that holds the state on the cassette's behalf
+        scan(c, 0)
         if not shared:
             raise HarnessError('the asynchronous cassette keeps no container / lock attribute: granularity selection must be extended')
         if not shared <= s.opcode_attrs:
@@ -227,6 +235,9 @@ def execute(case, prefix):
 
     s.spawn(main, 'closer')
     ok = s.run()
+    for t in s.threads:
+        if isinstance(t.exc, HarnessError):
+            raise t.exc   # raised inside a scheduled thread: still a harness error, never part of a verdict
     store = dict(saved)
     return s, {'ok': ok, 'deadlock': s.deadlock, 'horizon': s.horizon, 'journal': journal, 'store': store, 'out': out,
                'alive': [t.name for t in s.threads if not t.done], 'timer_fired': getattr(s, 'timer_fired', 0)}
